@@ -20,7 +20,8 @@ RULE = ("generated structures (peptides with variants and pre-existing hydrogens
         "mmCIF with '.'/'?' marker conventions swapped and with wwPDB-style label ids (fresh label_asym_id per hetero "
         "group, label_seq_id 1..n); x six force fields x option variants. Non-trivial: structure with >= 1 of "
         "{alt-loc, insertion code, multi-model, 4-char name, negative coordinate <= -100, label!=auth}; distinct = "
-        "(feature set, marker convention, label scheme, force field, option variant)")
+        "(feature set, marker convention, label scheme, force field, option variant)"
+        ' Round-3/4 additions: _atom_site layout variation (short, no entity items, extra esd items, shuffled); alias atom names.')
 ASSUMPTIONS = ["only the installed mmcif-pdbx 2.1.0 can be exercised; 'any supported version' is covered only in that the "
                "writer emits both missing-value marker conventions ('.' and '?') for every optional item",
                "chain labels and TER placement may differ between the two readers; atoms are compared as multisets"]
